@@ -19,7 +19,7 @@ fn l(ix: &[usize], i: usize) -> f32 {
 }
 
 macro_rules! mock {
-    ($ty:ty, $shape:expr, $n:expr, strict = $strict:expr, |$ix:ident| $build:expr $(, applicable = $app:expr)?) => {
+    ($ty:ty, $shape:expr, $class:expr, $n:expr, strict = $strict:expr, |$ix:ident| $build:expr $(, applicable = $app:expr)?) => {
         impl Case for $ty {
             const N: usize = $n;
             const STRICT: bool = $strict;
@@ -28,6 +28,9 @@ macro_rules! mock {
             }
             fn shape() -> String {
                 format!("mock:{}", $shape)
+            }
+            fn class() -> String {
+                $class.to_string()
             }
             $(fn applicable(f: Fmt) -> bool { ($app)(f) })?
             fn build($ix: &[usize]) -> Self {
@@ -52,13 +55,13 @@ pub struct MStruct {
     pub b: f32,
     pub c: f32,
 }
-mock!(MStruct, "struct3", 3, strict = true, |ix| MStruct { a: l(ix, 0), b: l(ix, 1), c: l(ix, 2) });
+mock!(MStruct, "struct3", "struct", 3, strict = true, |ix| MStruct { a: l(ix, 0), b: l(ix, 1), c: l(ix, 2) });
 
 #[derive(Serialize, Deserialize, Clone, Debug)]
 pub struct MOne {
     pub value: f32,
 }
-mock!(MOne, "struct1", 1, strict = true, |ix| MOne { value: l(ix, 0) });
+mock!(MOne, "struct1", "struct", 1, strict = true, |ix| MOne { value: l(ix, 0) });
 
 #[derive(Serialize, Deserialize, Clone, Debug)]
 pub struct MFour {
@@ -67,31 +70,31 @@ pub struct MFour {
     pub c: f32,
     pub d: f32,
 }
-mock!(MFour, "struct4", 4, strict = true, |ix| MFour { a: l(ix, 0), b: l(ix, 1), c: l(ix, 2), d: l(ix, 3) });
+mock!(MFour, "struct4", "struct", 4, strict = true, |ix| MFour { a: l(ix, 0), b: l(ix, 1), c: l(ix, 2), d: l(ix, 3) });
 
 #[derive(Serialize, Deserialize, Clone, Debug)]
 pub struct MEmpty {}
-mock!(MEmpty, "struct0", 0, strict = true, |_ix| MEmpty {});
+mock!(MEmpty, "struct0", "struct", 0, strict = true, |_ix| MEmpty {});
 
 #[derive(Serialize, Deserialize, Clone, Debug)]
 pub struct MTuple(pub f32, pub f32);
-mock!(MTuple, "tuple-struct2", 2, strict = true, |ix| MTuple(l(ix, 0), l(ix, 1)));
+mock!(MTuple, "tuple-struct2", "tuple-struct", 2, strict = true, |ix| MTuple(l(ix, 0), l(ix, 1)));
 
 #[derive(Serialize, Deserialize, Clone, Debug)]
 pub struct MTuple3(pub f32, pub f32, pub f32);
-mock!(MTuple3, "tuple-struct3", 3, strict = true, |ix| MTuple3(l(ix, 0), l(ix, 1), l(ix, 2)));
+mock!(MTuple3, "tuple-struct3", "tuple-struct", 3, strict = true, |ix| MTuple3(l(ix, 0), l(ix, 1), l(ix, 2)));
 
 #[derive(Serialize, Deserialize, Clone, Debug)]
 pub struct MNewtype(pub f32);
-mock!(MNewtype, "newtype", 1, strict = true, |ix| MNewtype(l(ix, 0)));
+mock!(MNewtype, "newtype", "newtype", 1, strict = true, |ix| MNewtype(l(ix, 0)));
 
 #[derive(Serialize, Deserialize, Clone, Debug)]
 pub struct MUnit;
-mock!(MUnit, "unit-struct", 0, strict = true, |_ix| MUnit);
+mock!(MUnit, "unit-struct", "unit-struct", 0, strict = true, |_ix| MUnit);
 
 #[derive(Serialize, Deserialize, Clone, Debug)]
 pub struct MEmptyTuple();
-mock!(MEmptyTuple, "tuple-struct0", 0, strict = true, |_ix| MEmptyTuple());
+mock!(MEmptyTuple, "tuple-struct0", "tuple-struct", 0, strict = true, |_ix| MEmptyTuple());
 
 #[derive(Serialize, Deserialize, Clone, Debug)]
 pub struct MRenamed {
@@ -103,7 +106,7 @@ pub struct MRenamed {
     #[serde(rename = "Alpha")]
     pub blue: f32,
 }
-mock!(MRenamed, "renamed-struct", 3, strict = true, |ix| MRenamed { red: l(ix, 0), green: l(ix, 1), blue: l(ix, 2) });
+mock!(MRenamed, "renamed-struct", "struct", 3, strict = true, |ix| MRenamed { red: l(ix, 0), green: l(ix, 1), blue: l(ix, 2) });
 
 #[derive(Serialize, Deserialize, Clone, Debug)]
 #[serde(rename = "Renamed2", rename_all = "SCREAMING_SNAKE_CASE")]
@@ -111,7 +114,7 @@ pub struct MRenameAll {
     pub red_value: f32,
     pub alpha_value: f32,
 }
-mock!(MRenameAll, "rename-all-struct", 2, strict = true, |ix| MRenameAll { red_value: l(ix, 0), alpha_value: l(ix, 1) });
+mock!(MRenameAll, "rename-all-struct", "struct", 2, strict = true, |ix| MRenameAll { red_value: l(ix, 0), alpha_value: l(ix, 1) });
 
 #[derive(Serialize, Deserialize, Clone, Debug)]
 pub struct MRest {
@@ -124,7 +127,7 @@ pub struct MFlatten {
     #[serde(flatten)]
     pub rest: MRest,
 }
-mock!(MFlatten, "flatten-struct", 3, strict = true, |ix| MFlatten { a: l(ix, 0), rest: MRest { b: l(ix, 1), c: l(ix, 2) } });
+mock!(MFlatten, "flatten-struct", "map", 3, strict = true, |ix| MFlatten { a: l(ix, 0), rest: MRest { b: l(ix, 1), c: l(ix, 2) } });
 
 pub struct NoSerde;
 #[derive(Serialize, Deserialize, Clone, Debug)]
@@ -146,7 +149,7 @@ impl std::fmt::Debug for NoSerde {
         f.write_str("NoSerde")
     }
 }
-mock!(MSkip, "skip-struct", 2, strict = true, |ix| MSkip { a: l(ix, 0), meta: PhantomData, b: l(ix, 1), cache: 0 });
+mock!(MSkip, "skip-struct", "struct", 2, strict = true, |ix| MSkip { a: l(ix, 0), meta: PhantomData, b: l(ix, 1), cache: 0 });
 
 #[derive(Serialize, Deserialize, Clone, Debug)]
 #[serde(deny_unknown_fields)]
@@ -154,7 +157,7 @@ pub struct MDeny {
     pub a: f32,
     pub b: f32,
 }
-mock!(MDeny, "deny-unknown-struct", 2, strict = true, |ix| MDeny { a: l(ix, 0), b: l(ix, 1) });
+mock!(MDeny, "deny-unknown-struct", "struct", 2, strict = true, |ix| MDeny { a: l(ix, 0), b: l(ix, 1) });
 
 #[derive(Serialize, Deserialize, Clone, Debug)]
 pub struct MDefault {
@@ -162,7 +165,7 @@ pub struct MDefault {
     #[serde(default)]
     pub b: f32,
 }
-mock!(MDefault, "default-struct", 2, strict = true, |ix| MDefault { a: l(ix, 0), b: l(ix, 1) });
+mock!(MDefault, "default-struct", "struct", 2, strict = true, |ix| MDefault { a: l(ix, 0), b: l(ix, 1) });
 
 fn is_zero(x: &f32) -> bool {
     *x == 0.0
@@ -176,7 +179,7 @@ pub struct MSkipIf {
     pub b: f32,
     pub c: f32,
 }
-mock!(MSkipIf, "skip-if-struct", 3, strict = true, |ix| MSkipIf { a: l(ix, 0), b: if ix[1] % 2 == 0 { 0.0 } else { l(ix, 1) }, c: l(ix, 2) },
+mock!(MSkipIf, "skip-if-struct", "struct", 3, strict = true, |ix| MSkipIf { a: l(ix, 0), b: if ix[1] % 2 == 0 { 0.0 } else { l(ix, 1) }, c: l(ix, 2) },
     applicable = |f: Fmt| f.is_map());
 
 #[derive(Serialize, Deserialize, Clone, Debug)]
@@ -193,6 +196,9 @@ impl Case for MHasAlpha {
     }
     fn shape() -> String {
         Self::name()
+    }
+    fn class() -> String {
+        "struct-with-alpha-field".into()
     }
     fn build(ix: &[usize]) -> Self {
         MHasAlpha { x: l(ix, 0), alpha: l(ix, 1) }
@@ -214,7 +220,7 @@ pub struct MNestedAlpha {
     pub inner: MHasAlpha,
     pub y: f32,
 }
-mock!(MNestedAlpha, "struct-with-nested-alpha-field", 3, strict = true, |ix| MNestedAlpha { inner: MHasAlpha { x: l(ix, 0), alpha: l(ix, 1) }, y: l(ix, 2) });
+mock!(MNestedAlpha, "struct-with-nested-alpha-field", "struct", 3, strict = true, |ix| MNestedAlpha { inner: MHasAlpha { x: l(ix, 0), alpha: l(ix, 1) }, y: l(ix, 2) });
 
 #[derive(Serialize, Deserialize, Clone, Debug)]
 pub struct MMixed {
@@ -229,7 +235,7 @@ pub struct MMixed {
     pub unit: (),
     pub t: (f32, u16),
 }
-mock!(MMixed, "mixed-struct", 3, strict = true, |ix| {
+mock!(MMixed, "mixed-struct", "struct", 3, strict = true, |ix| {
     let (a, b, c) = (l(ix, 0), l(ix, 1), l(ix, 2));
     MMixed {
         id: a.to_bits() as u8,
@@ -246,12 +252,12 @@ mock!(MMixed, "mixed-struct", 3, strict = true, |ix| {
 });
 
 // std shapes
-mock!((), "unit", 0, strict = true, |_ix| ());
-mock!((f32, f32), "tuple2", 2, strict = true, |ix| (l(ix, 0), l(ix, 1)));
-mock!([f32; 3], "array3", 3, strict = true, |ix| [l(ix, 0), l(ix, 1), l(ix, 2)]);
+mock!((), "unit", "unit", 0, strict = true, |_ix| ());
+mock!((f32, f32), "tuple2", "tuple", 2, strict = true, |ix| (l(ix, 0), l(ix, 1)));
+mock!([f32; 3], "array3", "tuple", 3, strict = true, |ix| [l(ix, 0), l(ix, 1), l(ix, 2)]);
 // a Vec visitor consumes every element including the trailing alpha: outside the statement
-mock!(Vec<f32>, "vec", 2, strict = false, |ix| vec![l(ix, 0), l(ix, 1)]);
-mock!(BTreeMap<String, f32>, "btreemap", 2, strict = false, |ix| {
+mock!(Vec<f32>, "vec", "seq", 2, strict = false, |ix| vec![l(ix, 0), l(ix, 1)]);
+mock!(BTreeMap<String, f32>, "btreemap", "map", 2, strict = false, |ix| {
     let mut m = BTreeMap::new();
     m.insert("k1".to_string(), l(ix, 0));
     m.insert("k2".to_string(), l(ix, 1));
@@ -259,22 +265,22 @@ mock!(BTreeMap<String, f32>, "btreemap", 2, strict = false, |ix| {
 });
 
 // shapes AlphaSerializer / AlphaDeserializer declare unsupported
-mock!(f32, "prim-f32", 1, strict = false, |ix| l(ix, 0));
-mock!(f64, "prim-f64", 1, strict = false, |ix| l(ix, 0) as f64);
-mock!(bool, "prim-bool", 1, strict = false, |ix| ix[0] % 2 == 0);
-mock!(i8, "prim-i8", 1, strict = false, |ix| ix[0] as i8 - 5);
-mock!(i16, "prim-i16", 1, strict = false, |ix| ix[0] as i16 - 5);
-mock!(i32, "prim-i32", 1, strict = false, |ix| ix[0] as i32 - 5);
-mock!(i64, "prim-i64", 1, strict = false, |ix| ix[0] as i64 - 5);
-mock!(i128, "prim-i128", 1, strict = false, |ix| ix[0] as i128 - 5);
-mock!(u8, "prim-u8", 1, strict = false, |ix| ix[0] as u8);
-mock!(u16, "prim-u16", 1, strict = false, |ix| ix[0] as u16);
-mock!(u32, "prim-u32", 1, strict = false, |ix| ix[0] as u32);
-mock!(u64, "prim-u64", 1, strict = false, |ix| ix[0] as u64);
-mock!(u128, "prim-u128", 1, strict = false, |ix| ix[0] as u128);
-mock!(char, "prim-char", 1, strict = false, |ix| (b'a' + ix[0] as u8) as char);
-mock!(String, "prim-string", 1, strict = false, |ix| format!("s{}", ix[0]));
-mock!(Option<f32>, "option", 1, strict = false, |ix| if ix[0] % 2 == 0 { None } else { Some(l(ix, 0)) });
+mock!(f32, "prim-f32", "primitive", 1, strict = false, |ix| l(ix, 0));
+mock!(f64, "prim-f64", "primitive", 1, strict = false, |ix| l(ix, 0) as f64);
+mock!(bool, "prim-bool", "primitive", 1, strict = false, |ix| ix[0] % 2 == 0);
+mock!(i8, "prim-i8", "primitive", 1, strict = false, |ix| ix[0] as i8 - 5);
+mock!(i16, "prim-i16", "primitive", 1, strict = false, |ix| ix[0] as i16 - 5);
+mock!(i32, "prim-i32", "primitive", 1, strict = false, |ix| ix[0] as i32 - 5);
+mock!(i64, "prim-i64", "primitive", 1, strict = false, |ix| ix[0] as i64 - 5);
+mock!(i128, "prim-i128", "primitive", 1, strict = false, |ix| ix[0] as i128 - 5);
+mock!(u8, "prim-u8", "primitive", 1, strict = false, |ix| ix[0] as u8);
+mock!(u16, "prim-u16", "primitive", 1, strict = false, |ix| ix[0] as u16);
+mock!(u32, "prim-u32", "primitive", 1, strict = false, |ix| ix[0] as u32);
+mock!(u64, "prim-u64", "primitive", 1, strict = false, |ix| ix[0] as u64);
+mock!(u128, "prim-u128", "primitive", 1, strict = false, |ix| ix[0] as u128);
+mock!(char, "prim-char", "primitive", 1, strict = false, |ix| (b'a' + ix[0] as u8) as char);
+mock!(String, "prim-string", "primitive", 1, strict = false, |ix| format!("s{}", ix[0]));
+mock!(Option<f32>, "option", "option", 1, strict = false, |ix| if ix[0] % 2 == 0 { None } else { Some(l(ix, 0)) });
 
 #[derive(Serialize, Deserialize, Clone, Debug)]
 pub enum MEnum {
@@ -283,7 +289,7 @@ pub enum MEnum {
     C(f32, f32),
     D { x: f32 },
 }
-mock!(MEnum, "enum", 1, strict = false, |ix| match ix[0] % 4 {
+mock!(MEnum, "enum", "enum", 1, strict = false, |ix| match ix[0] % 4 {
     0 => MEnum::A,
     1 => MEnum::B(l(ix, 0)),
     2 => MEnum::C(l(ix, 0), 0.5),
@@ -294,7 +300,7 @@ mock!(MEnum, "enum", 1, strict = false, |ix| match ix[0] % 4 {
 #[derive(Serialize, Deserialize, Clone, Debug)]
 #[serde(transparent)]
 pub struct MAny(pub serde_json::Value);
-mock!(MAny, "deserialize-any", 1, strict = false, |ix| MAny(serde_json::json!({"x": ix[0], "y": [1, 2]})));
+mock!(MAny, "deserialize-any", "any", 1, strict = false, |ix| MAny(serde_json::json!({"x": ix[0], "y": [1, 2]})));
 
 /// serialize_bytes / deserialize_bytes
 #[derive(Clone, Debug)]
@@ -326,7 +332,7 @@ impl<'de> Deserialize<'de> for MBytes {
         d.deserialize_bytes(V)
     }
 }
-mock!(MBytes, "bytes", 1, strict = false, |ix| MBytes(vec![ix[0] as u8, 2, 3]));
+mock!(MBytes, "bytes", "bytes", 1, strict = false, |ix| MBytes(vec![ix[0] as u8, 2, 3]));
 
 /// A type whose representation depends on `is_human_readable` (like std::net::IpAddr or
 /// uuid::Uuid). Probe only: no palette colour depends on it.
